@@ -184,6 +184,11 @@ func (ex *Exec) step(st *State, fc *FnCtx, in ssa.Instruction, pred *ssa.BasicBl
 		ex.setComp(st, compMapPT(mt.Key(), mt.Elem()), store(pc, r, Term{"((as const " + ps + ") false)", ps}))
 		lc := ex.mapLComp(st.heap)
 		ex.setComp(st, compMapL(), store(lc, r, bv64(0)))
+		for g := range ex.cs.FreshFalse {
+			so := ex.cs.Ghost[g]
+			c := ex.comp(st.heap, compGhost(g), so)
+			st.assume(eq(sel(c, r), Term{"((as const " + so + ") false)", so}))
+		}
 		if mapIsLocal(x) {
 			st.localMaps = append(st.localMaps, localMap{r, mt.Key(), mt.Elem()})
 		}
